@@ -28,6 +28,11 @@ def num_of(lit):
     return None
 
 
+_SA = [1, 2, 3]
+SHARED = {"sa": _SA, "sa[:2]": _SA[:2], "sa[:0]": [], "sa[1:]": _SA[1:], "sa[0:3]": _SA, "sa[:1]": [1], "[1, 2]": [1, 2], "[1, 2, 3]": [1, 2, 3],
+          "[]": [], "[2, 3]": [2, 3], "[1]": [1], "sm": {"a": 1}, '{"a": 1}': {"a": 1}, "[sa]": [_SA], "[sa[:2]]": [[1, 2]], "[[1, 2]]": [[1, 2]]}
+
+
 def impl_oracle(c):
     """laws the property states, checked on the implementation's answers alone"""
     impl = c["impl"]
@@ -57,6 +62,11 @@ def impl_oracle(c):
         want = float(na[1]) == float(nb[1]) if na[0] == "float" else na[1] == nb[1]
         if eq_ab != want:
             out.append("same-type numbers %s == %s should be %s" % (va, vb, want))
+    # containers compare structurally: views of one list are equal exactly when their contents are
+    if va in SHARED and vb in SHARED:
+        want = SHARED[va] == SHARED[vb]
+        if eq_ab != want:
+            out.append("containers compare structurally: %s == %s should be %s (sa = [1, 2, 3], sm = {\"a\": 1})" % (va, vb, want))
     # nil equals only nil
     if (va == "nil") != (vb == "nil") and eq_ab:
         out.append("nil equals a non-nil value: %s == %s" % (va, vb))
@@ -86,7 +96,9 @@ def run(tier, seed, replay=None):
         rule="complete product of ordered pairs over a pool of 64 values (nil, booleans, ints around 10^5..10^7, 2^53, 2^53+1, "
              "2^63-1, floats with and without exponent, -0.0, NaN, Inf, numeric and non-numeric strings incl. \"1e6\", \"0x10\", "
              "\" 1\", \"+1\", nested slices and maps) = 4096 pairs, each evaluated in all syntactic uses and both orders: "
-             "a==b, b==a, a!=b, a in [b], switch a {case b}, a<=b && a>=b, b in [a], switch b {case a}; compared with the Coq "
+             "a==b, b==a, a!=b, a in [b], switch a {case b}, a<=b && a>=b, b in [a], switch b {case a}; then 16x16 pairs of containers "
+             "that share storage (views of one list at several offsets and lengths, the same list nested, a shared map) beside fresh "
+             "containers with the same contents, judged structurally; compared with the Coq "
              "model of equal() and, independently, against the laws the property states (symmetry, negation, in/switch agreement, "
              "int-float vs <= && >=, nil, string-numeral denotation) on the implementation alone; exhaustive over the pool",
         design_ref="DESIGN.md §4 C06", impl_oracle=impl_oracle, max_dropped=0.05)
